@@ -104,12 +104,19 @@ func zzH_Eval() {
 		zzOut("perr", perr)
 		return
 	}
-	doc := zzDoc("doc")
+	doc := zzInputDoc("doc")
 	zzCallLog = nil
 	got, err, pan := zzTry(f, doc)
 	implCalls := zzCallLog
 	zzOut("got", got)
-	zzOut("err", err)
+	if err != nil {
+		text, epan := zzErrorText(err)
+		zzAssert(epan == nil, "error-text-can-be-printed")
+		if epan != nil {
+			return
+		}
+		zzOutStr("err", zzErrKind(err)+":"+text)
+	}
 	zzAssert(pan == nil, "no-panic")
 	if pan != nil {
 		zzOut("panic", "yes")
